@@ -104,15 +104,25 @@ def main(ctx, replay=None):
     trace_meta = {sc: [] for sc in sched.SCENARIOS}
     proj_failed = 0
     noninj = 0
-    for sc in sched.SCENARIOS:
+    for sc_run in sched.SCENARIOS + ("neardeg",):
+        # "neardeg": three different strain fractions of which two are 3e-4 apart (relative) - different for the code's task equality
+        # (numpy.allclose, rtol 1e-5), so the problem instance is the generic one
+        sc = "generic" if sc_run == "neardeg" else sc_run
         case = draw_case(rng, nq=int(rng.integers(1, 4)), nat=int(rng.integers(1, 4)), low_t=False)
         duck = DuckCalc(case)
         ntv = len(case["v"])
         strain = base_strain(rng, sc, ntv)
+        if sc_run == "neardeg":
+            a, b = (0, 1) if rng.random() < 0.5 else (1, 2)
+            strain[:, b] = strain[:, a] * (1.0 + 3e-4 * rng.uniform(0.8, 1.2, ntv))
+            strain = strain / strain.sum(axis=1, keepdims=True)
         single = {}
+        last_tl = [None]
 
-        def run(keys, strain=strain, duck=duck):
-            return record(insts[sc], duck, strain, [c_(int(k[0]), int(k[1])) for k in keys])
+        def run(keys, strain=strain, duck=duck, reuse=False):
+            out = record(insts[sc], duck, strain, [c_(int(k[0]), int(k[1])) for k in keys], tl=last_tl[0] if reuse else None)
+            last_tl[0] = out[1]
+            return out
 
         def value_of(key):
             if key not in single:
@@ -126,19 +136,21 @@ def main(ctx, replay=None):
         if iso_full is not None:
             tensor_scale = max(float(numpy.max(numpy.abs(numpy.nan_to_num(numpy.asarray(v))))) for v in iso_full.values()) or 1.0
 
-        for seq in seqs:
+        for sn, seq in enumerate(seqs if sc_run != "neardeg" else seqs[::2]):
             nontrivial = len(seq) >= 2 or any(int(k[0]) >= 4 or int(k[1]) >= 4 for k in seq)
-            ctx.count({"sc": sc, "seq": list(seq)}, nontrivial=nontrivial)
-            events, tl, (iso, adi), info = run(seq)
-            sig = {"scenario": sc}
-            rep = {"scenario": sc, "request": list(seq), "strain": strain, "case": case}
+            ctx.count({"sc": sc_run, "seq": list(seq)}, nontrivial=nontrivial)
+            # every third request goes to the task list of the previous request (resolve() on a used list starts over: Reset)
+            reuse = bool(sn % 3 == 2)
+            events, tl, (iso, adi), info = run(seq, reuse=reuse)
+            sig = {"scenario": sc_run}
+            rep = {"scenario": sc_run, "request": list(seq), "strain": strain, "case": case, "reused_task_list": reuse}
             if info["error"] is not None:
-                ctx.violation(f"[{sc}] request {list(seq)}: resolve/calculate raised {info['error']!r}", rep, {**sig, "clause": "complete_raises"})
+                ctx.violation(f"[{sc_run}] request {list(seq)}: resolve/calculate raised {info['error']!r}", rep, {**sig, "clause": "complete_raises"})
                 continue
             # (1) complete
             missing = [k for k in seq if c_(int(k[0]), int(k[1])) not in iso or c_(int(k[0]), int(k[1])) not in adi]
             if missing:
-                ctx.violation(f"[{sc}] request {list(seq)}: no value for {missing}", rep, {**sig, "clause": "complete"})
+                ctx.violation(f"[{sc_run}] request {list(seq)}{' on a re-used task list' if reuse else ''}: no value for {missing}", rep, {**sig, "clause": "complete"})
                 continue
             vals = {k: (numpy.asarray(iso[c_(int(k[0]), int(k[1]))]), numpy.asarray(adi[c_(int(k[0]), int(k[1]))])) for k in seq}
             scale = tensor_scale
@@ -149,7 +161,7 @@ def main(ctx, replay=None):
                     continue
                 for which, name in ((0, "isothermal"), (1, "adiabatic")):
                     if not numpy.all(numpy.isfinite(vals[k][which])) or relerr(vals[k][which], ref[which], scale) > 1e-9:
-                        ctx.violation(f"[{sc}] c{k} ({name}) differs when requested within {list(seq)} from when requested alone "
+                        ctx.violation(f"[{sc_run}] c{k} ({name}) differs when requested within {list(seq)} from when requested alone "
                                       f"(rel. {relerr(vals[k][which], ref[which], scale):.2e})", {**rep, "key": k},
                                       {**sig, "clause": "request_independent"})
                         break
@@ -161,11 +173,11 @@ def main(ctx, replay=None):
                     dp = PP.create(dstrain, dkey)
                     where = [n for n, t in enumerate(order) if t.task_params == dp]
                     if not where or min(where) > pos:
-                        ctx.violation(f"[{sc}] request {list(seq)}: task for c{task.key.voigt} is scheduled before its dependency c{dkey.voigt}",
+                        ctx.violation(f"[{sc_run}] request {list(seq)}: task for c{task.key.voigt} is scheduled before its dependency c{dkey.voigt}",
                                       rep, {**sig, "clause": "deps_first"})
                         break
             # (5) isotropic limit
-            if sc == "isotropic":
+            if sc_run == "isotropic":
                 check_isotropy(ctx, vals, scale, rep, sig)
             # traces
             if events is None:
@@ -180,8 +192,9 @@ def main(ctx, replay=None):
                 traces[sc] += events
                 trace_meta[sc].append((len(traces[sc]), list(seq), info["projection"]))
         # (6) axis relabelling, on the full tensor
-        check_permutations(ctx, rng, sc, insts[sc], case, strain, run)
-        ctx.sample({"scenario": sc, "request": list(seqs[min(3, len(seqs) - 1)]), "strain_row0": strain[0].tolist()})
+        if sc_run != "neardeg":
+            check_permutations(ctx, rng, sc, insts[sc], case, strain, run)
+        ctx.sample({"scenario": sc_run, "request": list(seqs[min(3, len(seqs) - 1)]), "strain_row0": strain[0].tolist()})
 
     # ---- the shipped example(s): the scheduler run of a real calculation is a behaviour of the same specification ------
     real_runs(ctx, insts, traces, trace_meta, scr)
